@@ -191,6 +191,20 @@ CHECKS = {
         BASE_NOTE + 'sqlite evaluates the offered predicates and the statements; a hint-honouring back-end is emulated by cutting the table data to the offered columns / admitted rows.',
         'DESIGN.md section 5 C14',
     ),
+    'C06': (
+        'Rocq proof over (a) the push-down automaton model of the DSL Visitor vs the direct translation, (b) the denotational semantics of statements with the join / operator tables the alchemy parser emits (regenerated from the source on every run), (c) the result-cache state machine; + three-level differential correspondence (recorded Visitor terms, sqlite and duckdb rows, read histories through the real alchemy feed)',
+        'PARTIAL. Proved for every statement: the Visitor automaton assembles exactly the direct translation (operand order, clean '
+        'stack, contexts restored) and cannot fail when every column is in scope; the emitted join equals the join kind list-for-list '
+        'for inner/left/full (hence implementation model = denotation on every statement built from them), up to row order for right, '
+        'and for cross only with non-empty operands; the emitted operator/aggregate/set/direction tables are the identity; cached reads '
+        'are right while nothing changes. Refuted (known findings): cross join with an empty operand, history independence of the '
+        'cached reader (stale after mutation / restart, shared across connections). Not a theorem: that SQLAlchemy + sqlite/duckdb '
+        'evaluate the emitted SQL as the denotation says - that is the differential part (both engines, an independent Python '
+        'evaluator and the Coq denotation must agree on every generated statement x content). lazy/monolite feeds, floats, division, '
+        'avg, window functions and NULL ordering keys are outside the model.',
+        BASE_NOTE + 'SQLAlchemy 2.0, sqlite 3.40, duckdb 1.5, pandas (reader level) execute the parser output.',
+        'DESIGN.md section 5 C06',
+    ),
     'C07': (
         'Rocq proof characterising the mirrored construction-time validation rule by rule + differential correspondence on conforming statements and single-rule mutants',
         'Theorems (Properties/C07.v) for every statement: a query / join / set is constructible iff the documented rules hold '
